@@ -167,9 +167,12 @@ pub fn run_case(tree: &Snap, invocations: &[Vec<String>]) -> Vec<String> {
 }
 
 pub fn emit<W: Write>(out: &mut W, id: usize, tree: &Snap, invocations: &[Vec<String>]) {
-    let res = run_case(tree, invocations);
     let invs: Vec<String> = invocations.iter().map(|i| if i.is_empty() { "-".to_string() } else { i.join(" ") }).collect();
-    writeln!(out, "W|{}|{}|{}|=>|{}", id, render_tree(tree), invs.join("|"), res.join("|")).unwrap();
+    let input = format!("W|{}|{}|{}", id, render_tree(tree), invs.join("|"));
+    crate::watch::begin(input.clone());
+    let res = run_case(tree, invocations);
+    crate::watch::end();
+    writeln!(out, "{}|=>|{}", input, res.join("|")).unwrap();
 }
 
 /// stdout/stderr of the code under test must not mix with the protocol: point fds 1 and 2 to /dev/null
@@ -393,12 +396,16 @@ pub fn run_faults<W: Write>(out: &mut W, seed: u64, n: usize, opts: &HashMap<Str
         let ws = gen_workspace(&mut rng, rich, 3, true);
         let mut inv = gen_options(&mut rng, &threads);
         inv.extend(gen_goal(&mut rng, &ws));
+        crate::watch::begin(format!("F|{}|{}|{}|0", id, render_tree(&ws.tree), if inv.is_empty() { "-".to_string() } else { inv.join(" ") }));
         let (_, nops) = run_fault_case(&ws.tree, &inv, None);
+        crate::watch::end();
         if nops == 0 { continue; }
         // every k if few operations, otherwise a random sample (thorough: perws large enough for all)
         let ks: Vec<usize> = if nops <= per_case { (0..nops).collect() } else { let mut v: Vec<usize> = (0..per_case).map(|_| rng.below(nops)).collect(); v.sort(); v.dedup(); v };
         for k in ks {
+            crate::watch::begin(format!("F|{}|{}|{}|{}", id, render_tree(&ws.tree), if inv.is_empty() { "-".to_string() } else { inv.join(" ") }, k));
             let (res, _) = run_fault_case(&ws.tree, &inv, Some(k));
+            crate::watch::end();
             writeln!(out, "F|{}|{}|{}|{}|=>|{};nops={}", id, render_tree(&ws.tree), if inv.is_empty() { "-".to_string() } else { inv.join(" ") }, k, res, nops).unwrap();
             id += 1;
         }
@@ -448,7 +455,9 @@ pub fn run_sched<W: Write>(out: &mut W, seed: u64, n: usize, opts: &HashMap<Stri
         if rng.chance(opts.get("dry").and_then(|s| s.parse().ok()).unwrap_or(0)) { inv.push("--dry-run".into()); }
         inv.extend(gen_goal(&mut rng, &ws));
         // probe
+        crate::watch::begin(format!("W|{}|{}|{}", id, render_tree(&ws.tree), if inv.is_empty() { "-".to_string() } else { inv.join(" ") }));
         let (_, log, _) = run_scheduled(&ws.tree, &inv, Some(vec![]));
+        crate::watch::end();
         for j in 0..per_ws {
             // the apply phase and the save phase are separated by a barrier: permute within each phase
             let mut script: Vec<String> = Vec::new();
@@ -463,7 +472,9 @@ pub fn run_sched<W: Write>(out: &mut W, seed: u64, n: usize, opts: &HashMap<Stri
                 }
                 script.extend(part);
             }
+            crate::watch::begin(format!("W|{}|{}|{}", id, render_tree(&ws.tree), if inv.is_empty() { "-".to_string() } else { inv.join(" ") }));
             let (res, _log2, deviations) = run_scheduled(&ws.tree, &inv, Some(script.clone()));
+            crate::watch::end();
             writeln!(out, "W|{}|{}|{}|=>|{};sched={};dev={}", id, render_tree(&ws.tree), if inv.is_empty() { "-".to_string() } else { inv.join(" ") },
                      res, script.len(), deviations).unwrap();
             id += 1;
